@@ -353,9 +353,21 @@ func (i InfixExpression) PrettyPrint(out *PrintState) *PrintState {
 	} else {
 		out.Print(" ", i.Literal(), " ")
 	}
-	if i.Right == nil {
+	switch right := i.Right.(type) {
+	case nil:
 		out.Print("nil")
-	} else {
+	case *InfixExpression:
+		// Infix operators are left associative: a right operand of the same precedence was
+		// parenthesized in the source (a-(b-c)) and must stay so, or it would re-parse as (a-b)-c.
+		if !out.AllParens && Precedences[right.Type()] == out.ExpressionPrecedence &&
+			!(right.Type() == i.Type() && associative(i.Type())) {
+			out.Print("(")
+			right.PrettyPrint(out)
+			out.Print(")")
+		} else {
+			right.PrettyPrint(out)
+		}
+	default:
 		i.Right.PrettyPrint(out)
 	}
 	if needParen {
@@ -363,6 +375,17 @@ func (i InfixExpression) PrettyPrint(out *PrintState) *PrintState {
 	}
 	out.ExpressionPrecedence = oldPrecedence
 	return out
+}
+
+// Operators for which (a op b) op c and a op (b op c) are interchangeable, so redundant
+// parentheses around a right operand using the same operator can be dropped when printing.
+func associative(t token.Type) bool {
+	switch t { //nolint:exhaustive // all the others are not.
+	case token.PLUS, token.ASTERISK, token.BITAND, token.BITOR, token.BITXOR, token.AND, token.OR:
+		return true
+	default:
+		return false
+	}
 }
 
 type Boolean struct {
